@@ -1,7 +1,359 @@
 package main
 
-func extractKernels(proto, server *pkgInfo, out *Output, fail func(error)) {}
+// G3: decision kernels. A mini-translator for PURE integer/boolean Go functions:
+//   statements: `if cond { … }`, `if … else …`, `return expr`, local `x := expr` (non-reassigned)
+//   expressions: comparisons, && || !, + - * / % & |, integer literals, package constants, fixed-width
+//                conversions (widening only — see `conv`), reads of struct fields through a per-kernel
+//                PARAMETER MAP (Go selector chain → Lean parameter), calls to other kernels in the map.
+// Anything else is an extraction error (the tie is broken), never a guess.
+
+import (
+	"fmt"
+	"go/ast"
+	"go/token"
+	"sort"
+	"strings"
+)
+
+type kernelSpec struct {
+	Name   string            // Lean def name
+	Pkg    string            // "server" | "protocol"
+	Recv   string            // receiver type ("" for plain func)
+	Func   string            // Go function name
+	Params []string          // Lean parameters in order, "name : Type"
+	Map    map[string]string // Go expression (normalised) → Lean term
+	Ret    string            // Lean return type
+}
+
+var kernelSpecs = []kernelSpec{
+	{Name: "doLock", Pkg: "server", Recv: "LockDB", Func: "doLock", Ret: "Bool",
+		Params: []string{"locked : Nat", "curCount : Nat", "count : Nat", "tflag : Nat", "cmpVersion : Int"},
+		Map: map[string]string{
+			"lockManager.locked": "locked", "lockManager.currentLock.command.Count": "curCount", "lock.command.Count": "count",
+			"lock.command.TimeoutFlag": "tflag",
+			"self.compareLockVersion(lock.command.LockId,lockManager.currentLock.command.LockId)": "cmpVersion"}},
+	{Name: "checkLockedCountEqual", Pkg: "server", Recv: "LockManager", Func: "checkLockedCountEqual", Ret: "Bool",
+		Params: []string{"count : Nat", "rcount : Nat", "tflag : Nat", "hCount : Nat", "hRcount : Nat", "hTflag : Nat"},
+		Map: map[string]string{"command.Count": "count", "command.Rcount": "rcount", "command.TimeoutFlag": "tflag",
+			"lock.command.Count": "hCount", "lock.command.Rcount": "hRcount", "lock.command.TimeoutFlag": "hTflag"}},
+	{Name: "checkLockedEqual", Pkg: "server", Recv: "LockManager", Func: "CheckLockedEqual", Ret: "Bool",
+		Params: []string{"now : Int", "expT : Int", "eflag : Nat", "expried : Nat", "countEq : Bool"},
+		Map: map[string]string{"command.ExpriedFlag": "eflag", "command.Expried": "expried", "lock.expriedTime": "expT",
+			"self.lockDb.currentTime": "now", "self.checkLockedCountEqual(lock,command)": "countEq"}},
+	{Name: "getMajorityMemberCount", Pkg: "server", Recv: "ArbiterManager", Func: "GetMajorityMemberCount", Ret: "Nat", Params: nil, Map: nil},
+}
+
+type ktr struct {
+	spec   *kernelSpec
+	fset   *token.FileSet
+	locals map[string]string // local var → Lean term
+	consts map[string]int64
+	intCtx bool
+}
+
+func kNormExpr(e ast.Expr) string {
+	switch v := e.(type) {
+	case *ast.Ident:
+		return v.Name
+	case *ast.SelectorExpr:
+		return kNormExpr(v.X) + "." + v.Sel.Name
+	case *ast.CallExpr:
+		var a []string
+		for _, x := range v.Args {
+			a = append(a, kNormExpr(x))
+		}
+		return kNormExpr(v.Fun) + "(" + strings.Join(a, ",") + ")"
+	case *ast.ParenExpr:
+		return kNormExpr(v.X)
+	case *ast.BasicLit:
+		return v.Value
+	}
+	return fmt.Sprintf("<%T>", e)
+}
+
+func (k *ktr) errf(n ast.Node, f string, a ...interface{}) error {
+	return fmt.Errorf("kernel %s: %s: %s", k.spec.Name, k.fset.Position(n.Pos()), fmt.Sprintf(f, a...))
+}
+
+// isIntTerm: Lean parameters typed Int force integer (possibly negative) arithmetic
+func (k *ktr) leanType(term string) string {
+	for _, p := range k.spec.Params {
+		parts := strings.SplitN(p, " : ", 2)
+		if parts[0] == term {
+			return parts[1]
+		}
+	}
+	return ""
+}
+
+func (k *ktr) expr(e ast.Expr) (string, string, error) { // returns Lean term, type ("Nat","Int","Bool")
+	if t, ok := k.spec.Map[kNormExpr(e)]; ok {
+		return t, k.leanType(t), nil
+	}
+	switch v := e.(type) {
+	case *ast.ParenExpr:
+		t, ty, err := k.expr(v.X)
+		return "(" + t + ")", ty, err
+	case *ast.BasicLit:
+		if v.Kind == token.INT {
+			n, ok := evalConst(v, 0, nil)
+			if !ok {
+				return "", "", k.errf(e, "bad literal")
+			}
+			return fmt.Sprintf("%d", n), "Nat", nil
+		}
+	case *ast.Ident:
+		if t, ok := k.locals[v.Name]; ok {
+			parts := strings.SplitN(t, "\x00", 2)
+			return parts[0], parts[1], nil
+		}
+		if v.Name == "true" || v.Name == "false" {
+			return v.Name, "Bool", nil
+		}
+		if n, ok := k.consts[v.Name]; ok {
+			return fmt.Sprintf("%d", n), "Nat", nil
+		}
+	case *ast.SelectorExpr:
+		if id, ok := v.X.(*ast.Ident); ok && id.Name == "protocol" {
+			if n, ok := k.consts[v.Sel.Name]; ok {
+				return fmt.Sprintf("%d", n), "Nat", nil
+			}
+		}
+	case *ast.CallExpr:
+		// fixed-width conversions: only widening / same-width conversions of already-bounded fields are accepted as identity
+		if id, ok := v.Fun.(*ast.Ident); ok && len(v.Args) == 1 {
+			switch id.Name {
+			case "uint32", "uint64", "int64", "int", "uint16", "uint8", "int32":
+				t, ty, err := k.expr(v.Args[0])
+				if err != nil {
+					return "", "", err
+				}
+				if id.Name == "int64" || id.Name == "int" || id.Name == "int32" {
+					if ty == "Nat" {
+						return "(" + t + " : Int)", "Int", nil
+					}
+					return t, ty, nil
+				}
+				return t, ty, nil
+			}
+		}
+	case *ast.UnaryExpr:
+		if v.Op == token.NOT {
+			t, _, err := k.expr(v.X)
+			return "(!" + t + ")", "Bool", err
+		}
+	case *ast.BinaryExpr:
+		a, ta, err := k.expr(v.X)
+		if err != nil {
+			return "", "", err
+		}
+		b, tb, err := k.expr(v.Y)
+		if err != nil {
+			return "", "", err
+		}
+		coerce := func() {
+			if ta == "Int" && tb == "Nat" {
+				b, tb = "("+b+" : Int)", "Int"
+			}
+			if tb == "Int" && ta == "Nat" {
+				a, ta = "("+a+" : Int)", "Int"
+			}
+		}
+		switch v.Op {
+		case token.LAND:
+			return "(" + a + " && " + b + ")", "Bool", nil
+		case token.LOR:
+			return "(" + a + " || " + b + ")", "Bool", nil
+		case token.EQL, token.NEQ, token.LSS, token.LEQ, token.GTR, token.GEQ:
+			coerce()
+			if ta == "Bool" {
+				op := map[token.Token]string{token.EQL: "==", token.NEQ: "!="}[v.Op]
+				return "(" + a + " " + op + " " + b + ")", "Bool", nil
+			}
+			op := map[token.Token]string{token.EQL: "==", token.NEQ: "!=", token.LSS: "<", token.LEQ: "≤", token.GTR: ">", token.GEQ: "≥"}[v.Op]
+			if v.Op == token.EQL || v.Op == token.NEQ {
+				return "(" + a + " " + op + " " + b + ")", "Bool", nil
+			}
+			return "(decide (" + a + " " + op + " " + b + "))", "Bool", nil
+		case token.ADD, token.SUB, token.MUL, token.QUO, token.REM:
+			coerce()
+			op := map[token.Token]string{token.ADD: "+", token.SUB: "-", token.MUL: "*", token.QUO: "/", token.REM: "%"}[v.Op]
+			if v.Op == token.SUB && ta == "Nat" {
+				return "", "", k.errf(e, "subtraction on naturals is not translated (possible wrap-around)")
+			}
+			return "(" + a + " " + op + " " + b + ")", ta, nil
+		case token.AND:
+			return "(" + a + " &&& " + b + ")", "Nat", nil
+		case token.OR:
+			return "(" + a + " ||| " + b + ")", "Nat", nil
+		}
+	}
+	return "", "", k.errf(e, "untranslatable expression %s", kNormExpr(e))
+}
+
+func (k *ktr) cond(e ast.Expr) (string, error) {
+	t, ty, err := k.expr(e)
+	if err != nil {
+		return "", err
+	}
+	if ty != "Bool" {
+		return "", k.errf(e, "condition is not boolean")
+	}
+	return t, nil
+}
+
+// block translates a statement list that ends in a return on every path into one Lean expression.
+func (k *ktr) block(stmts []ast.Stmt, indent string) (string, error) {
+	if len(stmts) == 0 {
+		return "", fmt.Errorf("kernel %s: control reaches the end of a block without return", k.spec.Name)
+	}
+	switch s := stmts[0].(type) {
+	case *ast.ReturnStmt:
+		if len(s.Results) != 1 {
+			return "", k.errf(s, "return arity")
+		}
+		t, _, err := k.expr(s.Results[0])
+		return t, err
+	case *ast.AssignStmt:
+		if s.Tok == token.DEFINE && len(s.Lhs) == 1 && len(s.Rhs) == 1 {
+			id, ok := s.Lhs[0].(*ast.Ident)
+			if !ok {
+				return "", k.errf(s, "assignment target")
+			}
+			t, ty, err := k.expr(s.Rhs[0])
+			if err != nil {
+				return "", err
+			}
+			k.locals[id.Name] = id.Name + "\x00" + ty
+			rest, err := k.block(stmts[1:], indent)
+			if err != nil {
+				return "", err
+			}
+			return "let " + id.Name + " := " + t + "\n" + indent + rest, nil
+		}
+		return "", k.errf(s, "only `x := expr` assignments are translated")
+	case *ast.IfStmt:
+		if s.Init != nil {
+			return "", k.errf(s, "if with init")
+		}
+		c, err := k.cond(s.Cond)
+		if err != nil {
+			return "", err
+		}
+		// then-branch: may fall through to the rest
+		thenStmts := append(append([]ast.Stmt{}, s.Body.List...), stmts[1:]...)
+		if blockReturns(s.Body.List) {
+			thenStmts = s.Body.List
+		}
+		th, err := k.block(thenStmts, indent+"  ")
+		if err != nil {
+			return "", err
+		}
+		var elseStmts []ast.Stmt
+		if s.Else != nil {
+			switch ev := s.Else.(type) {
+			case *ast.BlockStmt:
+				elseStmts = append(append([]ast.Stmt{}, ev.List...), stmts[1:]...)
+				if blockReturns(ev.List) {
+					elseStmts = ev.List
+				}
+			case *ast.IfStmt:
+				elseStmts = append([]ast.Stmt{ev}, stmts[1:]...)
+			}
+		} else {
+			elseStmts = stmts[1:]
+		}
+		el, err := k.block(elseStmts, indent+"  ")
+		if err != nil {
+			return "", err
+		}
+		return "if " + c + " then\n" + indent + "  " + th + "\n" + indent + "else\n" + indent + "  " + el, nil
+	}
+	return "", k.errf(stmts[0], "untranslatable statement %T", stmts[0])
+}
+
+func blockReturns(stmts []ast.Stmt) bool {
+	if len(stmts) == 0 {
+		return false
+	}
+	switch s := stmts[len(stmts)-1].(type) {
+	case *ast.ReturnStmt:
+		return true
+	case *ast.IfStmt:
+		if s.Else == nil {
+			return false
+		}
+		eb, ok := s.Else.(*ast.BlockStmt)
+		if ok {
+			return blockReturns(s.Body.List) && blockReturns(eb.List)
+		}
+		if ei, ok := s.Else.(*ast.IfStmt); ok {
+			return blockReturns(s.Body.List) && blockReturns([]ast.Stmt{ei})
+		}
+	}
+	return false
+}
+
+func findFunc(p *pkgInfo, recv, name string) *ast.FuncDecl {
+	if recv != "" {
+		fd, _ := findMethod(p.files, recv, name)
+		return fd
+	}
+	for _, f := range p.files {
+		for _, d := range f.Decls {
+			if fd, ok := d.(*ast.FuncDecl); ok && fd.Recv == nil && fd.Name.Name == name {
+				return fd
+			}
+		}
+	}
+	return nil
+}
+
+func extractKernels(proto, server *pkgInfo, out *Output, fail func(error)) {
+	for i := range kernelSpecs {
+		spec := &kernelSpecs[i]
+		if spec.Map == nil { // specs without a map are handled by special-purpose code or skipped
+			continue
+		}
+		p := server
+		if spec.Pkg == "protocol" {
+			p = proto
+		}
+		if p == nil {
+			continue
+		}
+		fd := findFunc(p, spec.Recv, spec.Func)
+		if fd == nil {
+			fail(fmt.Errorf("kernel %s: function %s.%s not found", spec.Name, spec.Recv, spec.Func))
+			continue
+		}
+		k := &ktr{spec: spec, fset: p.fset, locals: map[string]string{}, consts: out.Consts}
+		body, err := k.block(fd.Body.List, "  ")
+		if err != nil {
+			fail(err)
+			continue
+		}
+		lean := fmt.Sprintf("def %s %s : %s :=\n  %s\n", spec.Name, paramList(spec.Params), spec.Ret, body)
+		out.Kernels = append(out.Kernels, KernelOut{Name: spec.Name, Src: fmt.Sprintf("%s.%s", spec.Recv, spec.Func), Lean: lean})
+	}
+}
+
+func paramList(ps []string) string {
+	var s []string
+	for _, p := range ps {
+		s = append(s, "("+p+")")
+	}
+	return strings.Join(s, " ")
+}
 
 func emitKernels(out *Output) string {
-	return "/- GENERATED by /verif/go/extract from /repo — do not edit. -/\nnamespace Slock.Gen.K\n\nend Slock.Gen.K\n"
+	var b strings.Builder
+	b.WriteString("/- GENERATED by /verif/go/extract (kernels_impl.go) from /repo — do not edit.\n   Pure decision kernels translated statement by statement; struct fields become the parameters named in the kernel's map. -/\nnamespace Slock.Gen.K\n\n")
+	ks := append([]KernelOut{}, out.Kernels...)
+	sort.SliceStable(ks, func(i, j int) bool { return false })
+	for _, k := range ks {
+		b.WriteString("/-- from " + k.Src + " -/\n" + k.Lean + "\n")
+	}
+	b.WriteString("end Slock.Gen.K\n")
+	return b.String()
 }
